@@ -190,12 +190,37 @@ def interp_cases(run):
         except Exception as ex_:     # noqa: BLE001
             run.violation("C20:interpolate:refuses-boundary",
                           f"axis {axis} side {side}: {ex_!r}"[:200], {})
-    for method in ('linear', 'cubic', 'nearest'):
+    from scipy.interpolate import RegularGridInterpolator
+    for method in ('linear', 'nearest', 'slinear', 'cubic', 'pchip'):
         r = numerical.interpolate(val, (gx, gy, gz), (tx, ty, tz),
                                   method=method)
         n += 1
         if r.shape != tx.shape or not np.all(np.isfinite(r)):
             run.violation(f"C20:interpolate:method-{method}", "", {})
+            continue
+        # every method interpolates: exact at the nodes; and equal to a
+        # direct call of the documented scipy interpolator
+        rn = numerical.interpolate(val, (gx, gy, gz), (GX, GY, GZ),
+                                   method=method)
+        ref = RegularGridInterpolator((gx, gy, gz), val, method=method)(
+            np.stack([tx, ty, tz], axis=-1))
+        n += 2
+        # (scipy's tensor-product cubic spline is fitted by an iterative
+        # sparse solver: nodes are met to ~1e-5 only)
+        if np.abs(rn - val).max() > (1e-3 if method == 'cubic' else 1e-10):
+            run.violation(f"C20:interpolate:method-{method}:nodes",
+                          f"{np.abs(rn - val).max():.2e}", {})
+        if np.abs(r - ref).max() > 1e-12:
+            run.violation(f"C20:interpolate:method-{method}:vs-scipy",
+                          f"{np.abs(r - ref).max():.2e}", {})
+        try:
+            numerical.interpolate(val, (gx, gy, gz), (
+                np.array([2.0 + 1e-9]), np.array([0.7]), np.array([-2.0])),
+                method=method)
+            run.violation(f"C20:interpolate:method-{method}:accepts-outside",
+                          "", {})
+        except ValueError:
+            pass
     return n
 
 
